@@ -682,6 +682,18 @@ class Machine:
             raise Unsupported('cast ' + kind)
         if k == 'array':
             return [self.eval_operand(frame, o) for o in rv.args[0]]
+        if k == 'repeat':
+            v = self.eval_operand(frame, rv.args[0])
+            cnt = rv.args[1].strip()
+            mo = re.match(r'^(?:const )?(\d+)(?:_usize)?$', cnt)
+            if not mo:
+                cv = self.const_val(frame, cnt.replace('const ', '', 1))
+                n = cv
+            else:
+                n = int(mo.group(1))
+            if n > 1000000:
+                raise BoundExceeded('array repeat %d' % n)
+            return [copy_val(v) for _ in range(n)]
         raise Unsupported('rvalue ' + k)
 
     def int_cast(self, x, src, dst):
